@@ -748,7 +748,7 @@ func GetDeregistrationRequest(accessType uint8, switchOff uint8, ngKsi uint8,
 	deregistrationRequest.NgksiAndDeregistrationType.SetAccessType(accessType)
 	deregistrationRequest.NgksiAndDeregistrationType.SetSwitchOff(switchOff)
 	deregistrationRequest.NgksiAndDeregistrationType.SetReRegistrationRequired(0)
-	deregistrationRequest.NgksiAndDeregistrationType.SetTSC(ngKsi)
+	deregistrationRequest.NgksiAndDeregistrationType.SetTSC(ngKsi >> 3)
 	deregistrationRequest.NgksiAndDeregistrationType.SetNasKeySetIdentifiler(ngKsi)
 	deregistrationRequest.MobileIdentity5GS.SetLen(mobileIdentity5GS.GetLen())
 	deregistrationRequest.MobileIdentity5GS.SetMobileIdentity5GSContents(mobileIdentity5GS.GetMobileIdentity5GSContents())
